@@ -18,6 +18,7 @@
      orderev / rootsev   item sequences of [bfs_order] / [bfs_from_roots]
      permev   the permutation stored by the command-line `perm bfs` = positions in [bfs_order] *)
 open Model
+open Model.BfsM
 type string = Stdlib.String.t
 open Conv
 
